@@ -325,6 +325,8 @@ class QueueHooks(QHooks):
         return outs
 
     def prim_triggerpull(self, E, x, args):
+        self.site('C01.16-trigger', 'pull-only-after-successful-commit', x, self.flag(E, 'committed') == 1,
+                  'triggerpull() on a path where link(intd,todo) has not succeeded: the daemon is woken for nothing and the real pull may be missing', E)
         E.set('$pulled', fs(1))
         return [Outcome(ret=TOP, log='triggerpull()')]
 
